@@ -9,6 +9,31 @@ ROOT = os.path.dirname(os.path.dirname(os.path.abspath(__file__)))
 
 # id -> (category, technique, level text, level note, design ref)
 CHECKS = {
+    'C01': ('translation_validation', 'Hypothesis-generated C and C++ programs + compilable corpus files x single-option sweep / random / '
+            'whole-family configs; differential oracle: gcc/g++ -O1 -S of output == of input, uncrustify exits 0',
+            'Grammar-generated C programs and C++ translation units in random layouts and the ~330 corpus files that compile stand-alone are '
+            'formatted under every whitespace / mod_ / cmt_ option singly at every enumerated or boundary value (thorough: all settings), '
+            'random multi-option draws and whole-family settings; the object code gcc / g++ emits for the output must be byte-identical to '
+            'that for the input and uncrustify must accept the program.',
+            'gcc/g++ without -g emit no line information; generated programs avoid layout-dependent constructs; Objective-C and Java are not '
+            'compiled in this revision; mod_infinite_loop values that introduce `true` are not applied to C inputs.', 'DESIGN.md §3 C01'),
+    'C18': ('exploration', 'Hypothesis-generated block-structured C programs with per-line random indentation x indent options; closed-form '
+            'oracle (column = 1 + depth * indent_columns, from the generator\'s depth annotation) + metamorphic invariance under re-indentation',
+            'Programs with every statement kind and exact nesting-depth annotations are rendered with an independently random indentation '
+            'per line; for indent_columns 1..16, indent_with_tabs 0..2, output_tab_size 1..16 and brace-placement options every line that '
+            'starts with a statement\'s first token must sit in the closed-form visual column, closing braces under their opener, and a second '
+            'rendering that differs only in indentation must give identical leading whitespace on those lines.',
+            'C only; preprocessor groups, dangling-else shapes, bare blocks as bodies and class / namespace bodies are kept out so that the '
+            'depth annotation is exact; continuation lines, comments and parenthesised text are not judged.', 'DESIGN.md §3 C18'),
+    'C19': ('exploration', 'exhaustive sweep sp_ option x 4 values over a corpus slice + random joint assignments over the corpus and generated '
+            'C / C++ programs; oracle: hook record (rule, value, forced) vs configured value, gap measured in the output bytes',
+            'Every add/remove/force spacing option is set to each of its four values over a multi-language corpus slice, and random joint '
+            'assignments of all of them run over the whole corpus and generated programs; each spacing decision recorded by the hook with an '
+            'option\'s name as its rule must carry that option\'s configured value (documented promotions aside) and the blanks found between '
+            'the two tokens in the real output must obey it (force exactly one, add at least one, remove none unless the tokens would fuse, '
+            'ignore as in the input).',
+            'Trusts the hook record (last rule logged, value returned); options never attributed in a run are listed in the evidence; pairs '
+            'next to comments, line ends and virtual braces are not measured.', 'DESIGN.md §3 C19'),
     'C05': ('exploration', 'fixed universe C/C++ corpus x curated profiles (listed exceptions) + Hypothesis-generated C programs; fixed-point '
             'oracle f(f(x)) == f(x), f^3 == f^2, --check passes; second-pass acceptance for random configs',
             'Every C / C++ corpus file under the built-in default and the curated profiles in /verif/profiles (thorough: the whole '
